@@ -259,12 +259,103 @@ def drawn_cases(draw):
           'cb_kind': draw(st.sampled_from(CB_KINDS)), 'texts': texts}
 
 
+
+# ------------------------------------------------------------------ the chunk size as an operator configures it: the flag
+def flaginit_case(case):
+  """case = {'flaginit': n_threads, 'kb': 1|2, 'plan': {...}}: n threads make their first use of the USB plugs at once (each
+  calls usb.init_dependent_flags(), as every handle open does), then download an image; the process was started with
+  --fastboot_download_chunk_size_kb=<kb>."""
+  def fn(s):
+    import sys as _sys  # pylint: disable=g-import-not-at-top
+    m = fk.load()
+    fp = m.fastboot_protocol
+    usb = _sys.modules['openhtf.plugs.usb']
+    from openhtf.util import functions  # pylint: disable=g-import-not-at-top
+    saved = (usb.init_dependent_flags, fp.FASTBOOT_DOWNLOAD_CHUNK_SIZE_KB, list(_sys.argv))
+    usb.init_dependent_flags = functions.call_once(usb.init_dependent_flags.__wrapped__)      # a fresh process: not run yet
+    fp.FASTBOOT_DOWNLOAD_CHUNK_SIZE_KB = 1024
+    _sys.argv[:] = ['station.py', '--fastboot_download_chunk_size_kb=%d' % case['kb']]
+    log = []
+    size = case['kb'] * 1024 * 2 + 1
+
+    def worker(i):
+      try:
+        usb.init_dependent_flags()
+      except Exception as e:  # pylint: disable=broad-except
+        log.append(('init-raised', i, type(e).__name__, str(e)[:80]))
+        return
+      dev = fk.ScriptedBootloader(['DATA%08x' % size, 'OKAY'])
+      try:
+        fp.FastbootCommands(dev).download(io.StringIO(image(size)), source_len=size)
+      except Exception as e:  # pylint: disable=broad-except
+        log.append(('download-raised', i, type(e).__name__, str(e)[:80]))
+        return
+      log.append(('chunks', i, [len(p) for p in dev.packets[1:]]))
+
+    try:
+      import threading as _t  # pylint: disable=g-import-not-at-top
+      ths = [_t.Thread(target=worker, args=(i,), name='station%d' % i) for i in range(case['flaginit'])]
+      for t in ths:
+        t.daemon = True
+        t.start()
+      for t in ths:
+        t.join()
+    finally:
+      usb.init_dependent_flags, fp.FASTBOOT_DOWNLOAD_CHUNK_SIZE_KB = saved[0], saved[1]
+      _sys.argv[:] = saved[2]
+    return log
+
+  return fn
+
+
+def check_flaginit(case):
+  from vf import vmode  # pylint: disable=g-import-not-at-top
+  from vf import vsched as V  # pylint: disable=g-import-not-at-top
+  r = CaseResult()
+  plan_ = {int(k): v for k, v in (case.get('plan') or {}).items()}
+  s, log, exc = vmode.run(flaginit_case(case), plan=plan_, time_limit=1e4, watchdog_s=20.0, max_steps=60000)
+  r.classes = ['flaginit', 'threads:%d' % case['flaginit'], 'preempted' if s.effective_preemptions else 'default-schedule']
+  r.nontrivial = bool(s.effective_preemptions)
+  if s.failure is not None:
+    if s.failure[0] in ('deadlock', 'steplimit'):
+      r.bad('C16/flaginit/hang', '%r: %s' % (case, s.failure[1][:400]))
+      return r, s
+    raise RuntimeError('scheduler failure: %r' % (s.failure,))
+  if exc is not None:
+    raise exc
+  limit = case['kb'] * 1024
+  for e in log:
+    if e[0] == 'init-raised':
+      r.bad('C16/flaginit/first-use-raised/%s' % e[2], '%r: thread %d: init_dependent_flags() raised %s(%s)' % (case, e[1], e[2], e[3]))
+    elif e[0] == 'download-raised':
+      r.bad('C16/flaginit/download-raised/%s' % e[2], '%r: thread %d: %s' % (case, e[1], e[3]))
+    elif e[0] == 'chunks':
+      if max(e[2]) > limit:
+        r.bad('C16/flaginit/chunk-larger-than-configured', '%r: thread %d sent chunks of %r bytes, configured chunk size is %d bytes' % (case, e[1], e[2], limit))
+      if sum(e[2]) != limit * 2 + 1:
+        r.bad('C16/flaginit/wrong-total', '%r: thread %d sent %d bytes of %d' % (case, e[1], sum(e[2]), limit * 2 + 1))
+  return r, s
+
+
+def flaginit_setup():
+  from vf import vmode  # pylint: disable=g-import-not-at-top
+  from vf import vsched as V  # pylint: disable=g-import-not-at-top
+  import sys as _sys  # pylint: disable=g-import-not-at-top
+  vmode.setup(usb=True)
+  m = fk.load()
+  from openhtf.util import functions, argv  # pylint: disable=g-import-not-at-top
+  usb = _sys.modules['openhtf.plugs.usb']
+  V.install_proxies([functions])
+  V.monitor_lines(V.code_objects_of(functions.call_once, argv.StoreInModule, usb.init_dependent_flags.__wrapped__))
+
+
 def plan(tier, seed):
   maxlen = 3 if tier == 'quick' else 4
   nsh = 16
   jobs = [{'kind': 'enum', 'name': 'enum%d' % s, 'shard': s, 'nshards': nsh, 'maxlen': maxlen} for s in range(nsh)]
   for i in range(4):
     jobs.append({'kind': 'hyp', 'name': 'hyp%d' % i, 'hseed': seed * 1000 + i, 'n': 800 if tier == 'quick' else 20000})
+  jobs.append({'kind': 'flaginit', 'name': 'flaginit'})
   return jobs
 
 
@@ -273,6 +364,24 @@ def run_job(job, acct):
   if job['kind'] == '_regress':
     from vf import runner  # pylint: disable=g-import-not-at-top
     runner.run_regress(sys.modules[__name__], job, acct)
+  elif job['kind'] == 'flaginit':
+    flaginit_setup()
+    for nthreads in (2, 3):
+      for kb in (1, 2):
+        base = {'flaginit': nthreads, 'kb': kb}
+        check_flaginit(base)
+        r0, s0 = check_flaginit(base)
+        acct.case(base, r0.nontrivial, r0.classes)
+        for sig, detail in r0.violations:
+          (acct.known if sig in known else acct.violation)(sig, base, detail)
+        for k in range(s0.k + 2):
+          for c in range(nthreads + 1):
+            case = dict(base, plan={str(k): c})
+            r, _ = check_flaginit(case)
+            acct.case(case, r.nontrivial, r.classes)
+            for sig, detail in r.violations:
+              (acct.known if sig in known else acct.violation)(sig, case, detail)
+    acct.exhaustive_parts.append('first use of the USB flags by 2-3 threads at once: every single preemption')
   elif job['kind'] == 'enum':
     for i, case in enumerate(exhaustive_cases(job['maxlen'])):
       if i % job['nshards'] != job['shard']:
@@ -289,4 +398,7 @@ def run_job(job, acct):
 
 
 def replay(case):
+  if case.get('flaginit'):
+    flaginit_setup()
+    return check_flaginit(case)[0].violations
   return check(case).violations
